@@ -212,6 +212,20 @@ def wl_counting_pairs(ctx, rng, case):
             A.add(x, n)
         for x, n in kb:
             B.add(x, n)
+        if not big:
+            # some keys are removed again completely (legitimately): counters they shared with keys that stay must remain non-zero
+            for flt, fed in ((A, ka), (B, kb)):
+                if flt is B and compat_kind == "identical":
+                    continue
+                for x, n in rng.sample(fed, min(len(fed), rng.randint(0, 3))):
+                    tot = sum(nn for xx, nn in fed if xx == x)
+                    if flt.check(x) >= tot and tot > 0 and not any(o[0] == "rm" and o[1] is flt and o[2] == x for o in case.ops):
+                        flt.remove(x, tot)
+                        case.ops.append(("rm", flt, x))
+                        ctx.count("counting_operands_with_complete_removals")
+            case.ops[:] = [o for o in case.ops if o[0] != "rm"]
+            if compat_kind == "identical":
+                B = P.CountingBloomFilter.frombytes(bytes(A), **bl.kw_hash(hf))
         case.op("fed", ka, kb)
     compatible = (A.number_bits, A.number_hashes) == (B.number_bits, B.number_hashes) and compat_kind != "other_hash"
     sa, sb = bytes(A), bytes(B)
